@@ -1,28 +1,1331 @@
-//! C06 — (stub; to be implemented, see DESIGN.md section 5 and HARNESS.md)
+//! C06 — `derive_more::Debug` without attributes is indistinguishable from std `Debug`; `skip`/`ignore`
+//! closes like `finish_non_exhaustive`; a field-level `#[debug("..", args)]` replaces only that field's value.
+//!
+//! Every case is a small family of type definitions (nesting depth <= 3) rendered three times with identical
+//! names: `dm` (deriving `derive_more::Debug`), `sd` (the reference twin: std `#[derive(Debug)]` where the
+//! definition has no `#[debug]` attribute, otherwise a mechanically generated impl over std's builders with
+//! `finish_non_exhaustive()` / `&format_args!(LIT, ARGS..)`), and `md` (the same hand-written impl with two
+//! switchable *defect models*). Values of the three twins are formatted under a grid of formatter
+//! configurations x nestings (all in the prelude, over `&dyn Debug`) and compared text for text.
 use super::progprop::*;
+use super::proggen::CaseResult;
+use serde_json::json;
+use std::fmt::Write as _;
 
-fn build(_d: &mut Dice) -> GenCase {
-    let mut c = GenCase::new("pub fn run(o: &mut Out) { o.check(\"stub\", true); }".to_string());
-    c.nontrivial = false;
+pub const SIG_FLAGS: &str = "c06-debugtuple-pretty-flags";
+pub const SIG_RAW: &str = "c06-raw-ident-name";
+pub const SIG_BOTH: &str = "c06-debugtuple-pretty-flags+raw-ident-name";
+
+// ------------------------------------------------------------------------------------------------
+// formatter configuration grid
+
+const F_FA: [&str; 10] = ["", "<", "^", ">", "*<", "*^", "*>", "0>", "é^", "#<"];
+const F_SIGN: [&str; 3] = ["", "+", "-"];
+const F_ALT: [&str; 2] = ["", "#"];
+const F_ZERO: [&str; 2] = ["", "0"];
+const F_WIDTH: [&str; 4] = ["", "1", "8", "20"];
+const F_PREC: [&str; 3] = ["", ".0", ".3"];
+const F_TY: [&str; 3] = ["?", "x?", "X?"];
+
+fn spec_of(row: &[usize; 7]) -> (String, bool) {
+    let parts = [F_FA[row[0]], F_SIGN[row[1]], F_ALT[row[2]], F_ZERO[row[3]], F_WIDTH[row[4]], F_PREC[row[5]], F_TY[row[6]]];
+    let s = format!("{{:{}}}", parts.concat());
+    // "pretty + at least one more flag": the input class of the DebugTuple defect model
+    let pf = row[2] == 1 && (row[0] != 0 || row[1] != 0 || row[3] != 0 || row[4] != 0 || row[5] != 0 || row[6] != 0);
+    (s, pf)
+}
+
+/// The grid of outer specs: an all-pairs covering array over the seven spec components (greedy, deterministic),
+/// the full product of the components that interact inside the builders (`#` x type x zero x width x precision),
+/// the configurations named in DESIGN.md and 40 pseudo-random rows (fixed LCG: the grid is a constant table).
+pub fn spec_grid() -> Vec<(String, bool)> {
+    let sizes = [F_FA.len(), F_SIGN.len(), F_ALT.len(), F_ZERO.len(), F_WIDTH.len(), F_PREC.len(), F_TY.len()];
+    let mut rows: Vec<[usize; 7]> = vec![];
+    // explicit ones first
+    let explicit: [[usize; 7]; 12] = [
+        [0, 0, 0, 0, 0, 0, 0], // {:?}
+        [0, 0, 1, 0, 0, 0, 0], // {:#?}
+        [0, 0, 0, 0, 0, 0, 1], // {:x?}
+        [0, 0, 0, 0, 0, 0, 2], // {:X?}
+        [0, 0, 1, 0, 0, 0, 1], // {:#x?}
+        [3, 0, 0, 0, 3, 0, 0], // {:>20?}
+        [5, 0, 1, 0, 3, 0, 0], // {:*^#20?}
+        [0, 0, 0, 0, 2, 2, 0], // {:8.3?}
+        [0, 0, 1, 1, 2, 2, 0], // {:#08.3?}
+        [0, 1, 0, 0, 0, 0, 0], // {:+?}
+        [0, 0, 0, 1, 2, 0, 0], // {:08?}
+        [0, 0, 1, 0, 0, 1, 2], // {:#.0X?}
+    ];
+    rows.extend(explicit);
+    // full product of the interacting components
+    for alt in 0..2 {
+        for ty in 0..3 {
+            for zero in 0..2 {
+                for w in [0usize, 2] {
+                    for p in [0usize, 2] {
+                        rows.push([0, 0, alt, zero, w, p, ty]);
+                    }
+                }
+            }
+        }
+    }
+    // greedy all-pairs
+    let mut uncovered: std::collections::BTreeSet<(usize, usize, usize, usize)> = Default::default();
+    for i in 0..7 {
+        for j in i + 1..7 {
+            for a in 0..sizes[i] {
+                for b in 0..sizes[j] {
+                    uncovered.insert((i, a, j, b));
+                }
+            }
+        }
+    }
+    let cover = |row: &[usize; 7], unc: &mut std::collections::BTreeSet<(usize, usize, usize, usize)>| {
+        for i in 0..7 {
+            for j in i + 1..7 {
+                unc.remove(&(i, row[i], j, row[j]));
+            }
+        }
+    };
+    for r in &rows {
+        cover(r, &mut uncovered);
+    }
+    let mut all: Vec<[usize; 7]> = vec![];
+    let mut idx = [0usize; 7];
+    'outer: loop {
+        all.push(idx);
+        for k in (0..7).rev() {
+            idx[k] += 1;
+            if idx[k] < sizes[k] {
+                continue 'outer;
+            }
+            idx[k] = 0;
+        }
+        break;
+    }
+    while !uncovered.is_empty() {
+        let mut best = (0usize, 0usize);
+        for (n, row) in all.iter().enumerate() {
+            let mut gain = 0;
+            for i in 0..7 {
+                for j in i + 1..7 {
+                    if uncovered.contains(&(i, row[i], j, row[j])) {
+                        gain += 1;
+                    }
+                }
+            }
+            if gain > best.0 {
+                best = (gain, n);
+            }
+        }
+        let row = all[best.1];
+        cover(&row, &mut uncovered);
+        rows.push(row);
+    }
+    // 40 fixed pseudo-random rows
+    let mut x: u64 = 0x9E3779B97F4A7C15;
+    for _ in 0..40 {
+        let mut row = [0usize; 7];
+        for k in 0..7 {
+            x = x.wrapping_mul(6364136223846793005).wrapping_add(1442695040888963407);
+            row[k] = ((x >> 33) as usize) % sizes[k];
+        }
+        rows.push(row);
+    }
+    let mut seen = std::collections::HashSet::new();
+    rows.iter().map(spec_of).filter(|(s, _)| seen.insert(s.clone())).collect()
+}
+
+pub const NESTS: [&str; 11] = [
+    "v",
+    "Some(v)",
+    "vec![v, v]",
+    "(v, 1)",
+    "BTreeMap{1: v}",
+    "std-derived Wrap{inner: v, n: 1}",
+    "std-derived WrapT(v, 1)",
+    "twin-derived Wrap{inner: v, n: 1}",
+    "twin-derived WrapT(v, 1)",
+    "twin-derived WrapS(v, <skipped>)",
+    "Some(twin-derived WrapT(v, 1))",
+];
+
+pub fn prelude() -> String {
+    let grid = spec_grid();
+    let mut s = String::new();
+    s.push_str(
+        r#"
+pub static N0: i32 = 40; pub static N1: i32 = 41; pub static N2: i32 = 42; pub static N3: i32 = 43;
+thread_local! { pub static __MODEL: std::cell::Cell<u8> = std::cell::Cell::new(0); }
+/// defect model "raw-ident-name" (bit 2): type and variant names keep their `r#` prefix
+pub fn __nm(raw: &'static str, plain: &'static str) -> &'static str { if __MODEL.with(|m| m.get()) & 2 != 0 { raw } else { plain } }
+/// defect model "debugtuple-pretty-flags" (bit 1): a positional field is rendered with a fresh `{:#?}` in pretty mode
+pub struct __TF<'a>(pub &'a dyn std::fmt::Debug);
+impl std::fmt::Debug for __TF<'_> {
+    fn fmt(&self, f: &mut std::fmt::Formatter<'_>) -> std::fmt::Result {
+        if f.alternate() && __MODEL.with(|m| m.get()) & 1 != 0 { f.write_fmt(format_args!("{:#?}", self.0)) } else { self.0.fmt(f) }
+    }
+}
+pub mod __wsd {
+    #[derive(Debug)] pub struct Wrap<'a> { pub inner: &'a dyn std::fmt::Debug, pub n: i32 }
+    #[derive(Debug)] pub struct WrapT<'a>(pub &'a dyn std::fmt::Debug, pub u8);
+    pub struct WrapS<'a>(pub &'a dyn std::fmt::Debug, pub u8);
+    impl std::fmt::Debug for WrapS<'_> {
+        fn fmt(&self, f: &mut std::fmt::Formatter<'_>) -> std::fmt::Result { f.debug_tuple("WrapS").field(&self.0).finish_non_exhaustive() }
+    }
+}
+pub mod __wdm {
+    #[derive(derive_more::Debug)] pub struct Wrap<'a> { pub inner: &'a dyn std::fmt::Debug, pub n: i32 }
+    #[derive(derive_more::Debug)] pub struct WrapT<'a>(pub &'a dyn std::fmt::Debug, pub u8);
+    #[derive(derive_more::Debug)] pub struct WrapS<'a>(pub &'a dyn std::fmt::Debug, #[debug(skip)] pub u8);
+}
+pub mod __wmd {
+    use crate::__TF;
+    pub struct Wrap<'a> { pub inner: &'a dyn std::fmt::Debug, pub n: i32 }
+    impl std::fmt::Debug for Wrap<'_> {
+        fn fmt(&self, f: &mut std::fmt::Formatter<'_>) -> std::fmt::Result { f.debug_struct("Wrap").field("inner", &self.inner).field("n", &self.n).finish() }
+    }
+    pub struct WrapT<'a>(pub &'a dyn std::fmt::Debug, pub u8);
+    impl std::fmt::Debug for WrapT<'_> {
+        fn fmt(&self, f: &mut std::fmt::Formatter<'_>) -> std::fmt::Result { f.debug_tuple("WrapT").field(&__TF(&self.0)).field(&__TF(&self.1)).finish() }
+    }
+    pub struct WrapS<'a>(pub &'a dyn std::fmt::Debug, pub u8);
+    impl std::fmt::Debug for WrapS<'_> {
+        fn fmt(&self, f: &mut std::fmt::Formatter<'_>) -> std::fmt::Result { f.debug_tuple("WrapS").field(&__TF(&self.0)).finish_non_exhaustive() }
+    }
+}
+"#,
+    );
+    let _ = writeln!(s, "pub const __SPECS: [&str; {}] = [{}];", grid.len(), grid.iter().map(|(g, _)| format!("{g:?}")).collect::<Vec<_>>().join(", "));
+    let _ = writeln!(s, "pub const __SPEC_PF: [bool; {}] = [{}];", grid.len(), grid.iter().map(|(_, p)| p.to_string()).collect::<Vec<_>>().join(", "));
+    let _ = writeln!(s, "pub const __NESTS: [&str; {}] = [{}];", NESTS.len(), NESTS.iter().map(|g| format!("{g:?}")).collect::<Vec<_>>().join(", "));
+    s.push_str("pub fn __specs(v: &dyn std::fmt::Debug, out: &mut Vec<String>) {\n");
+    for (g, _) in &grid {
+        let _ = writeln!(s, "    out.push(format!({g:?}, v));");
+    }
+    s.push_str("}\n");
+    s.push_str(
+        r#"
+/// all nestings x all specs of one value; `fam` selects the wrapper family of the twin (0 dm, 1 sd, 2 md)
+pub fn __grid(v: &dyn std::fmt::Debug, fam: u8) -> Vec<String> {
+    let mut out = Vec::with_capacity(__SPECS.len() * __NESTS.len());
+    __specs(v, &mut out);
+    __specs(&Some(v), &mut out);
+    __specs(&vec![v, v], &mut out);
+    __specs(&(v, 1), &mut out);
+    __specs(&std::collections::BTreeMap::from([(1u8, v)]), &mut out);
+    __specs(&__wsd::Wrap { inner: v, n: 1 }, &mut out);
+    __specs(&__wsd::WrapT(v, 1), &mut out);
+    match fam {
+        0 => { __specs(&__wdm::Wrap { inner: v, n: 1 }, &mut out); __specs(&__wdm::WrapT(v, 1), &mut out); __specs(&__wdm::WrapS(v, 1), &mut out); __specs(&Some(__wdm::WrapT(v, 1)), &mut out); }
+        1 => { __specs(&__wsd::Wrap { inner: v, n: 1 }, &mut out); __specs(&__wsd::WrapT(v, 1), &mut out); __specs(&__wsd::WrapS(v, 1), &mut out); __specs(&Some(__wsd::WrapT(v, 1)), &mut out); }
+        _ => { __specs(&__wmd::Wrap { inner: v, n: 1 }, &mut out); __specs(&__wmd::WrapT(v, 1), &mut out); __specs(&__wmd::WrapS(v, 1), &mut out); __specs(&Some(__wmd::WrapT(v, 1)), &mut out); }
+    }
+    out
+}
+pub struct __Cmp { unknown: Vec<(String, String, String)>, known: Vec<(&'static str, String, String, String)>, compared: u64, differing: u64 }
+impl __Cmp {
+    pub fn new() -> __Cmp { __Cmp { unknown: Vec::new(), known: Vec::new(), compared: 0, differing: 0 } }
+    /// `dmv`: value of the derive_more twin, `sdv`: reference twin, `mdv`: hand-written twin with defect models
+    pub fn value(&mut self, idx: usize, dmv: &dyn std::fmt::Debug, sdv: &dyn std::fmt::Debug, mdv: &dyn std::fmt::Debug) {
+        let ns = __SPECS.len();
+        __MODEL.with(|m| m.set(0));
+        let obs = __grid(dmv, 0);
+        let exp = __grid(sdv, 1);
+        let m0 = __grid(mdv, 2);
+        let mut models: Vec<Vec<String>> = Vec::new();
+        for k in 0..obs.len() {
+            self.compared += 1;
+            let what = format!("value #{} nested as `{}` under `{}`", idx, __NESTS[k / ns], __SPECS[k % ns]);
+            if m0[k] != exp[k] && self.unknown.len() < 8 {
+                self.unknown.push((format!("harness self-check, hand-written std builders must equal the reference twin: {what}"), exp[k].clone(), m0[k].clone()));
+            }
+            if obs[k] == exp[k] { continue; }
+            self.differing += 1;
+            if models.is_empty() {
+                for bits in 1..4u8 { __MODEL.with(|m| m.set(bits)); models.push(__grid(mdv, 2)); }
+                __MODEL.with(|m| m.set(0));
+            }
+            let pf = __SPEC_PF[k % ns];
+            let tag = if pf && obs[k] == models[0][k] { Some("c06-debugtuple-pretty-flags") }
+                else if obs[k] == models[1][k] { Some("c06-raw-ident-name") }
+                else if pf && obs[k] == models[2][k] { Some("c06-debugtuple-pretty-flags+raw-ident-name") }
+                else { None };
+            match tag {
+                Some(t) => { if !self.known.iter().any(|x| x.0 == t) { self.known.push((t, format!("[{t}] {what}"), exp[k].clone(), obs[k].clone())); } }
+                None => { if self.unknown.len() < 8 { self.unknown.push((format!("derive_more::Debug differs from the std twin: {what}"), exp[k].clone(), obs[k].clone())); } }
+            }
+        }
+    }
+    /// unexplained differences first: a recorded defect must never hide another one
+    pub fn finish(self, o: &mut Out) {
+        for (w, e, ob) in &self.unknown { o.fail(w, e, ob); }
+        for (_, w, e, ob) in &self.known { o.fail(w, e, ob); }
+        o.put("compared", &self.compared.to_string());
+        o.put("differing", &self.differing.to_string());
+    }
+}
+"#,
+    );
+    s
+}
+
+// ------------------------------------------------------------------------------------------------
+// type model
+
+#[derive(Clone, Copy, Debug, PartialEq, Eq)]
+enum Leaf {
+    I32,
+    U8,
+    I64,
+    Usize,
+    F64,
+    Str,
+    StringT,
+    Char,
+    Bool,
+    Unit,
+    RefI32,
+}
+
+impl Leaf {
+    fn ty(self) -> &'static str {
+        match self {
+            Leaf::I32 => "i32",
+            Leaf::U8 => "u8",
+            Leaf::I64 => "i64",
+            Leaf::Usize => "usize",
+            Leaf::F64 => "f64",
+            Leaf::Str => "&'static str",
+            Leaf::StringT => "String",
+            Leaf::Char => "char",
+            Leaf::Bool => "bool",
+            Leaf::Unit => "()",
+            Leaf::RefI32 => "&'static i32",
+        }
+    }
+    fn value(self, d: &mut Dice) -> String {
+        match self {
+            Leaf::I32 => ["17", "-4", "0", "255", "1000003", "-2147483648"][d.pick(6)].to_string(),
+            Leaf::U8 => ["7", "0", "255"][d.pick(3)].to_string(),
+            Leaf::I64 => ["-1", "9007199254740993", "0"][d.pick(3)].to_string(),
+            Leaf::Usize => ["3", "0", "11", "4096"][d.pick(4)].to_string(),
+            Leaf::F64 => ["1.5", "-0.25", "1234.56789", "0.0", "1e10", "f64::NAN", "-0.0"][d.pick(7)].to_string(),
+            Leaf::Str => format!("{:?}", ["s", "héllo wörld", "", "a\nb", "q\"uo'te\\", "line1\nline2\n"][d.pick(6)]),
+            Leaf::StringT => format!("String::from({:?})", ["own", "", "two\nlines", "tab\there"][d.pick(4)]),
+            Leaf::Char => ["'c'", "'\\n'", "'é'", "'\\''"][d.pick(4)].to_string(),
+            Leaf::Bool => ["true", "false"][d.pick(2)].to_string(),
+            Leaf::Unit => "()".to_string(),
+            Leaf::RefI32 => format!("&N{}", d.pick(4)),
+        }
+    }
+    /// placeholder types usable in a field format for a value of this kind
+    fn fmt_tys(self) -> &'static [&'static str] {
+        match self {
+            Leaf::I32 | Leaf::U8 | Leaf::I64 | Leaf::Usize => &["", "?", "x?", "X?", "o", "x", "X", "b", "e", "E"],
+            Leaf::F64 => &["", "?", "e", "E"],
+            Leaf::Str | Leaf::StringT => &["", "?", "x?"],
+            Leaf::Char | Leaf::Bool => &["", "?"],
+            Leaf::Unit => &["?"],
+            Leaf::RefI32 => &["", "?", "x"],
+        }
+    }
+    fn is_copy(self) -> bool {
+        self != Leaf::StringT
+    }
+}
+
+const PARAM_LEAVES: [Leaf; 5] = [Leaf::I32, Leaf::U8, Leaf::Str, Leaf::F64, Leaf::Bool];
+
+#[derive(Clone, Debug)]
+enum Ty {
+    Leaf(Leaf),
+    Opt(Box<Ty>),
+    VecOf(Box<Ty>),
+    Tup(Box<Ty>, Box<Ty>),
+    Arr(Box<Ty>, usize),
+    BoxOf(Box<Ty>),
+    Map,
+    Nested(usize),
+    Param(usize),
+    VecParam(usize),
+    RefParam(usize),
+    ArrN,
+    RefStr,
+    Phantom(usize),
+}
+
+#[derive(Clone, Debug)]
+struct TP {
+    name: &'static str,
+    inst: Leaf,
+    bound: Option<&'static str>,
+}
+
+#[derive(Clone, Debug, Default)]
+struct Gen {
+    lt: bool,
+    tps: Vec<TP>,
+    cn: Option<usize>,
+    const_first: bool,
+    where_style: bool,
+    default_last: bool,
+}
+
+impl Gen {
+    fn is_empty(&self) -> bool {
+        !self.lt && self.tps.is_empty() && self.cn.is_none()
+    }
+    fn list(&self, lt: &str, tp: impl Fn(&TP) -> String, cn: &str) -> String {
+        if self.is_empty() {
+            return String::new();
+        }
+        let mut v: Vec<String> = vec![];
+        if self.lt {
+            v.push(lt.to_string());
+        }
+        let tps: Vec<String> = self.tps.iter().map(tp).collect();
+        let cns: Vec<String> = self.cn.iter().map(|_| cn.to_string()).collect();
+        if self.const_first {
+            v.extend(cns);
+            v.extend(tps);
+        } else {
+            v.extend(tps);
+            v.extend(cns);
+        }
+        format!("<{}>", v.join(", "))
+    }
+    /// declaration on the type definition
+    fn decl(&self) -> String {
+        let n = self.tps.len();
+        let last_overall = !self.tps.is_empty() && (self.cn.is_none() || self.const_first);
+        self.list(
+            "'a",
+            |t| {
+                let mut s = t.name.to_string();
+                if let (Some(b), false) = (t.bound, self.where_style) {
+                    s.push_str(&format!(": {b}"));
+                }
+                if self.default_last && last_overall && std::ptr::eq(t, &self.tps[n - 1]) {
+                    s.push_str(&format!(" = {}", t.inst.ty()));
+                }
+                s
+            },
+            "const N: usize",
+        )
+    }
+    fn where_clause(&self) -> String {
+        if !self.where_style {
+            return String::new();
+        }
+        let b: Vec<String> = self.tps.iter().filter_map(|t| t.bound.map(|b| format!("{}: {b}", t.name))).collect();
+        if b.is_empty() {
+            String::new()
+        } else {
+            format!(" where {}", b.join(", "))
+        }
+    }
+    /// generics of a hand-written `impl Debug`
+    fn impl_decl(&self) -> String {
+        self.list(
+            "'a",
+            |t| match t.bound {
+                Some(b) => format!("{}: {b} + std::fmt::Debug", t.name),
+                None => format!("{}: std::fmt::Debug", t.name),
+            },
+            "const N: usize",
+        )
+    }
+    fn args(&self) -> String {
+        self.list("'a", |t| t.name.to_string(), "N")
+    }
+    fn inst(&self) -> String {
+        let n = self.cn.unwrap_or(0).to_string();
+        self.list("'static", |t| t.inst.ty().to_string(), &n)
+    }
+}
+
+#[derive(Clone, Debug)]
+enum Attr {
+    None,
+    Skip(&'static str),
+    Fmt { lit: String, args: Vec<String>, inline_copy: Vec<String> },
+}
+
+#[derive(Clone, Debug)]
+struct FieldDef {
+    /// identifier as written (`r#in`), empty for positional fields
+    name: String,
+    ty: Ty,
+    attr: Attr,
+}
+
+#[derive(Clone, Copy, Debug, PartialEq, Eq)]
+enum VKind {
+    Unit,
+    Tuple,
+    Named,
+}
+
+#[derive(Clone, Debug)]
+struct Variant {
+    name: String,
+    kind: VKind,
+    fields: Vec<FieldDef>,
+}
+
+#[derive(Clone, Debug)]
+struct TypeDef {
+    name: String,
+    is_enum: bool,
+    gen: Gen,
+    variants: Vec<Variant>,
+}
+
+#[derive(Clone, Copy, PartialEq, Eq)]
+enum Flavor {
+    /// `#[derive(derive_more::Debug)]` with the attributes
+    Dm,
+    /// reference: std derive when the type has no attributes, hand-written std builders otherwise
+    Sd,
+    /// hand-written std builders with the switchable defect models
+    Md,
+}
+
+fn plain(name: &str) -> &str {
+    name.strip_prefix("r#").unwrap_or(name)
+}
+
+fn lit_tok(s: &str) -> String {
+    proc_macro2::Literal::string(s).to_string()
+}
+
+impl Ty {
+    fn render(&self, types: &[TypeDef], g: &Gen) -> String {
+        match self {
+            Ty::Leaf(l) => l.ty().to_string(),
+            Ty::Opt(t) => format!("Option<{}>", t.render(types, g)),
+            Ty::VecOf(t) => format!("Vec<{}>", t.render(types, g)),
+            Ty::Tup(a, b) => format!("({}, {})", a.render(types, g), b.render(types, g)),
+            Ty::Arr(t, n) => format!("[{}; {n}]", t.render(types, g)),
+            Ty::BoxOf(t) => format!("Box<{}>", t.render(types, g)),
+            Ty::Map => "std::collections::BTreeMap<i32, &'static str>".to_string(),
+            Ty::Nested(i) => format!("{}{}", types[*i].name, types[*i].gen.inst()),
+            Ty::Param(k) => g.tps[*k].name.to_string(),
+            Ty::VecParam(k) => format!("Vec<{}>", g.tps[*k].name),
+            Ty::RefParam(k) => format!("&'a {}", g.tps[*k].name),
+            Ty::ArrN => "[i32; N]".to_string(),
+            Ty::RefStr => "&'a str".to_string(),
+            Ty::Phantom(k) => format!("std::marker::PhantomData<{}>", g.tps[*k].name),
+        }
+    }
+    fn value(&self, d: &mut Dice, types: &[TypeDef], g: &Gen) -> String {
+        match self {
+            Ty::Leaf(l) => l.value(d),
+            Ty::Opt(t) => {
+                if d.chance(25) {
+                    "None".to_string()
+                } else {
+                    format!("Some({})", t.value(d, types, g))
+                }
+            }
+            Ty::VecOf(t) => {
+                let n = d.weighted(&[2, 4, 3]);
+                format!("vec![{}]", (0..n).map(|_| t.value(d, types, g)).collect::<Vec<_>>().join(", "))
+            }
+            Ty::Tup(a, b) => format!("({}, {})", a.value(d, types, g), b.value(d, types, g)),
+            Ty::Arr(t, n) => format!("[{}]", (0..*n).map(|_| t.value(d, types, g)).collect::<Vec<_>>().join(", ")),
+            Ty::BoxOf(t) => format!("Box::new({})", t.value(d, types, g)),
+            Ty::Map => ["std::collections::BTreeMap::from([(1, \"one\"), (-2, \"t\\nwo\")])", "std::collections::BTreeMap::new()"][d.pick(2)].to_string(),
+            Ty::Nested(i) => {
+                let t = &types[*i];
+                let v = d.pick(t.variants.len());
+                t.value(d, types, v)
+            }
+            Ty::Param(k) => g.tps[*k].inst.value(d),
+            Ty::VecParam(k) => {
+                let n = d.weighted(&[2, 4, 3]);
+                format!("vec![{}]", (0..n).map(|_| g.tps[*k].inst.value(d)).collect::<Vec<_>>().join(", "))
+            }
+            Ty::RefParam(k) => match g.tps[*k].inst {
+                Leaf::I32 => ["&17", "&0", "&255"][d.pick(3)].to_string(),
+                Leaf::U8 => ["&7", "&255"][d.pick(2)].to_string(),
+                Leaf::Str => ["&\"rs\"", "&\"a\\nb\""][d.pick(2)].to_string(),
+                Leaf::F64 => ["&1.5", "&1234.56789"][d.pick(2)].to_string(),
+                _ => ["&true", "&false"][d.pick(2)].to_string(),
+            },
+            Ty::ArrN => {
+                let n = g.cn.unwrap_or(0);
+                format!("[{}]", (0..n).map(|i| ["255", "-16", "7"][i % 3].to_string()).collect::<Vec<_>>().join(", "))
+            }
+            Ty::RefStr => ["\"lt\"", "\"x\\ny\""][d.pick(2)].to_string(),
+            Ty::Phantom(_) => "std::marker::PhantomData".to_string(),
+        }
+    }
+    fn leaf(&self) -> Option<Leaf> {
+        match self {
+            Ty::Leaf(l) => Some(*l),
+            _ => None,
+        }
+    }
+}
+
+impl TypeDef {
+    fn has_attrs(&self) -> bool {
+        self.variants.iter().any(|v| v.fields.iter().any(|f| !matches!(f.attr, Attr::None)))
+    }
+    fn value(&self, d: &mut Dice, types: &[TypeDef], vi: usize) -> String {
+        let v = &self.variants[vi];
+        let path = if self.is_enum { format!("{}::{}", self.name, v.name) } else { self.name.clone() };
+        match v.kind {
+            VKind::Unit => path,
+            VKind::Tuple => format!("{path}({})", v.fields.iter().map(|f| f.ty.value(d, types, &self.gen)).collect::<Vec<_>>().join(", ")),
+            VKind::Named => {
+                if v.fields.is_empty() {
+                    format!("{path} {{}}")
+                } else {
+                    format!("{path} {{ {} }}", v.fields.iter().map(|f| format!("{}: {}", f.name, f.ty.value(d, types, &self.gen))).collect::<Vec<_>>().join(", "))
+                }
+            }
+        }
+    }
+
+    fn render_fields(&self, v: &Variant, types: &[TypeDef], flavor: Flavor, vis: &str) -> String {
+        let attr = |f: &FieldDef| -> String {
+            if flavor != Flavor::Dm {
+                return String::new();
+            }
+            match &f.attr {
+                Attr::None => String::new(),
+                Attr::Skip(w) => format!("#[debug({w})] "),
+                Attr::Fmt { lit, args, .. } => {
+                    if args.is_empty() {
+                        format!("#[debug({})] ", lit_tok(lit))
+                    } else {
+                        format!("#[debug({}, {})] ", lit_tok(lit), args.join(", "))
+                    }
+                }
+            }
+        };
+        match v.kind {
+            VKind::Unit => String::new(),
+            VKind::Tuple => format!("({})", v.fields.iter().map(|f| format!("{}{vis}{}", attr(f), f.ty.render(types, &self.gen))).collect::<Vec<_>>().join(", ")),
+            VKind::Named => {
+                if v.fields.is_empty() {
+                    " {}".to_string()
+                } else {
+                    format!(
+                        " {{\n{}}}",
+                        v.fields.iter().map(|f| format!("        {}{vis}{}: {},\n", attr(f), f.name, f.ty.render(types, &self.gen))).collect::<String>()
+                    )
+                }
+            }
+        }
+    }
+
+    fn render_def(&self, types: &[TypeDef], flavor: Flavor) -> String {
+        let derive = match flavor {
+            Flavor::Dm => "#[derive(derive_more::Debug)]\n",
+            Flavor::Sd if !self.has_attrs() => "#[derive(Debug)]\n",
+            _ => "",
+        };
+        let decl = self.gen.decl();
+        let wh = self.gen.where_clause();
+        let mut s = String::new();
+        if self.is_enum {
+            let _ = write!(s, "    {derive}    pub enum {}{decl}{wh} {{\n", self.name);
+            for v in &self.variants {
+                let _ = write!(s, "        {}{},\n", v.name, self.render_fields(v, types, flavor, ""));
+            }
+            s.push_str("    }\n");
+        } else {
+            let v = &self.variants[0];
+            let f = self.render_fields(v, types, flavor, "pub ");
+            match v.kind {
+                VKind::Unit => {
+                    let _ = write!(s, "    {derive}    pub struct {}{decl}{wh};\n", self.name);
+                }
+                VKind::Tuple => {
+                    let _ = write!(s, "    {derive}    pub struct {}{decl}{f}{wh};\n", self.name);
+                }
+                VKind::Named => {
+                    let _ = write!(s, "    {derive}    pub struct {}{decl}{wh}{f}\n", self.name);
+                }
+            }
+        }
+        let manual = match flavor {
+            Flavor::Dm => false,
+            Flavor::Sd => self.has_attrs(),
+            Flavor::Md => true,
+        };
+        if manual {
+            s.push_str(&self.render_impl(flavor == Flavor::Md));
+        }
+        s
+    }
+
+    /// what std's derive expands to (builders), with `finish_non_exhaustive()` for skipped fields and
+    /// `&format_args!(LIT, ARGS..)` for a field format; `model` routes names and positional fields through
+    /// the defect-model switches of the prelude.
+    fn render_impl(&self, model: bool) -> String {
+        let nm = |n: &str| -> String {
+            if model {
+                format!("__nm({:?}, {:?})", n, plain(n))
+            } else {
+                format!("{:?}", plain(n))
+            }
+        };
+        let builder = |v: &Variant| -> String {
+            let exhaustive = !v.fields.iter().any(|f| matches!(f.attr, Attr::Skip(_)));
+            let fin = if exhaustive { ".finish()" } else { ".finish_non_exhaustive()" };
+            let mut b = String::new();
+            match v.kind {
+                VKind::Unit => return format!("f.write_str({})", nm(&v.name)),
+                VKind::Tuple => {
+                    let _ = write!(b, "f.debug_tuple({})", nm(&v.name));
+                }
+                VKind::Named => {
+                    let _ = write!(b, "f.debug_struct({})", nm(&v.name));
+                }
+            }
+            for (i, f) in v.fields.iter().enumerate() {
+                let bind = if v.kind == VKind::Tuple { format!("_{i}") } else { f.name.clone() };
+                let val = match &f.attr {
+                    Attr::Skip(_) => continue,
+                    Attr::None => {
+                        if model && v.kind == VKind::Tuple {
+                            format!("&__TF({bind})")
+                        } else {
+                            bind.clone()
+                        }
+                    }
+                    Attr::Fmt { lit, args, inline_copy } => {
+                        let mut a: Vec<String> = args.clone();
+                        a.extend(inline_copy.iter().map(|n| format!("{n} = *{n}")));
+                        if a.is_empty() {
+                            format!("&format_args!({})", lit_tok(lit))
+                        } else {
+                            format!("&format_args!({}, {})", lit_tok(lit), a.join(", "))
+                        }
+                    }
+                };
+                match v.kind {
+                    VKind::Tuple => {
+                        let _ = write!(b, ".field({val})");
+                    }
+                    _ => {
+                        let _ = write!(b, ".field({:?}, {val})", plain(&f.name));
+                    }
+                }
+            }
+            b.push_str(fin);
+            b
+        };
+        let mut body = String::new();
+        if self.is_enum {
+            body.push_str("            match self {\n");
+            for v in &self.variants {
+                let pat = match v.kind {
+                    VKind::Unit => String::new(),
+                    VKind::Tuple => format!("({})", (0..v.fields.len()).map(|i| format!("_{i}")).collect::<Vec<_>>().join(", ")),
+                    VKind::Named => format!(" {{ {} }}", v.fields.iter().map(|f| f.name.clone()).collect::<Vec<_>>().join(", ")),
+                };
+                let _ = write!(body, "                Self::{}{pat} => {},\n", v.name, builder(v));
+            }
+            body.push_str("            }\n");
+        } else {
+            let v = &self.variants[0];
+            for (i, f) in v.fields.iter().enumerate() {
+                if v.kind == VKind::Tuple {
+                    let _ = write!(body, "            let _{i} = &self.{i};\n");
+                } else {
+                    let _ = write!(body, "            let {0} = &self.{0};\n", f.name);
+                }
+            }
+            let _ = write!(body, "            {}\n", builder(v));
+        }
+        format!(
+            "    impl{} std::fmt::Debug for {}{} {{\n        fn fmt(&self, f: &mut std::fmt::Formatter<'_>) -> std::fmt::Result {{\n{body}        }}\n    }}\n",
+            self.gen.impl_decl(),
+            self.name,
+            self.gen.args()
+        )
+    }
+}
+
+// ------------------------------------------------------------------------------------------------
+// generator
+
+const TYPE_NAMES: [&str; 10] = ["Foo", "Bar", "FooBar", "Leaf", "Node", "Wrapper", "r#type", "r#fn", "r#match", "r#Raw"];
+const VARIANT_NAMES: [&str; 9] = ["A", "Bc", "Unit", "Tup", "Named", "r#loop", "r#while", "r#Var", "Zz"];
+const FIELD_NAMES: [&str; 9] = ["a", "b", "x", "name", "foo_bar", "_x", "r#in", "r#type", "r#y"];
+
+struct Cx {
+    types: Vec<TypeDef>,
+    used_names: Vec<String>,
+    labels: Vec<String>,
+}
+
+impl Cx {
+    fn label(&mut self, l: &str) {
+        if !self.labels.iter().any(|x| x == l) {
+            self.labels.push(l.to_string());
+        }
+    }
+}
+
+fn gen_leaf(d: &mut Dice) -> Leaf {
+    [Leaf::I32, Leaf::Str, Leaf::F64, Leaf::U8, Leaf::Bool, Leaf::I64, Leaf::Usize, Leaf::StringT, Leaf::Char, Leaf::Unit, Leaf::RefI32][d.weighted(&[6, 4, 3, 2, 2, 1, 1, 2, 1, 1, 1])]
+}
+
+fn gen_ty(d: &mut Dice, depth: usize, cx: &mut Cx, g: &Gen) -> Ty {
+    let w_nested = if depth < 2 { 22 } else { 0 };
+    let w_gen = if g.is_empty() { 0 } else { 18 };
+    match d.weighted(&[45, 15, w_nested, w_gen]) {
+        0 => Ty::Leaf(gen_leaf(d)),
+        1 => match d.pick(6) {
+            0 => Ty::Opt(Box::new(Ty::Leaf(gen_leaf(d)))),
+            1 => Ty::VecOf(Box::new(Ty::Leaf(gen_leaf(d)))),
+            2 => Ty::Tup(Box::new(Ty::Leaf(gen_leaf(d))), Box::new(Ty::Leaf(gen_leaf(d)))),
+            3 => Ty::Arr(Box::new(Ty::Leaf(gen_leaf(d))), d.range(0, 3)),
+            4 => Ty::Map,
+            _ => Ty::VecOf(Box::new(Ty::Opt(Box::new(Ty::Leaf(gen_leaf(d)))))),
+        },
+        2 => {
+            let i = gen_type(d, depth + 1, cx);
+            cx.label(&format!("nesting_depth>={}", depth + 1));
+            match d.weighted(&[5, 2, 2, 1, 1]) {
+                0 => Ty::Nested(i),
+                1 => Ty::Opt(Box::new(Ty::Nested(i))),
+                2 => Ty::VecOf(Box::new(Ty::Nested(i))),
+                3 => Ty::BoxOf(Box::new(Ty::Nested(i))),
+                _ => Ty::Tup(Box::new(Ty::Nested(i)), Box::new(Ty::Leaf(gen_leaf(d)))),
+            }
+        }
+        _ => gen_generic_use(d, g),
+    }
+}
+
+fn gen_generic_use(d: &mut Dice, g: &Gen) -> Ty {
+    let mut alts: Vec<Ty> = vec![];
+    for k in 0..g.tps.len() {
+        alts.push(Ty::Param(k));
+        alts.push(Ty::VecParam(k));
+        if g.lt {
+            alts.push(Ty::RefParam(k));
+        }
+    }
+    if g.cn.is_some() {
+        alts.push(Ty::ArrN);
+    }
+    if g.lt {
+        alts.push(Ty::RefStr);
+    }
+    if alts.is_empty() {
+        return Ty::Leaf(Leaf::I32);
+    }
+    alts[d.pick(alts.len())].clone()
+}
+
+fn gen_generics(d: &mut Dice) -> Gen {
+    let mut g = Gen::default();
+    g.lt = d.chance(35);
+    let ntp = d.weighted(&[3, 5, 2]);
+    for k in 0..ntp {
+        g.tps.push(TP { name: ["T", "U"][k], inst: PARAM_LEAVES[d.pick(PARAM_LEAVES.len())], bound: if d.chance(30) { Some(*d.choose(&["Clone", "Copy + PartialEq"])) } else { None } });
+    }
+    if d.chance(35) {
+        g.cn = Some(d.range(0, 3));
+    }
+    if g.is_empty() {
+        g.tps.push(TP { name: "T", inst: Leaf::I32, bound: None });
+    }
+    g.const_first = d.chance(30);
+    g.where_style = d.chance(30);
+    g.default_last = d.chance(20);
+    g
+}
+
+/// a field-level `#[debug("..", args)]` for field `me` of variant `v` (bindings: `_i` / field names, `self` in structs)
+fn gen_field_fmt(d: &mut Dice, v: &Variant, me: usize, is_enum: bool, cx: &mut Cx) -> Attr {
+    let bind = |i: usize| -> String { if v.kind == VKind::Tuple { format!("_{i}") } else { v.fields[i].name.clone() } };
+    let mut lit = String::new();
+    let mut pos_args: Vec<String> = vec![];
+    let mut named_args: Vec<String> = vec![];
+    let mut inline_copy: Vec<String> = vec![];
+    let mut implicit_counter = 0usize;
+    let npieces = 1 + d.weighted(&[4, 4, 2]);
+    let mut any_ph = false;
+    for pi in 0..npieces {
+        let force_ph = pi == npieces - 1 && !any_ph && d.chance(85);
+        if !force_ph && d.chance(30) {
+            lit.push_str(["=", " ", "{{", "}}", "é→", "\n", "<", ", ", "x\n"][d.pick(9)]);
+            continue;
+        }
+        any_ph = true;
+        let ti = if d.chance(65) { me } else { d.pick(v.fields.len()) };
+        let b = bind(ti);
+        let raw = b.starts_with("r#");
+        let leaf = v.fields[ti].ty.leaf();
+        // (how the value is referenced, kind of the resulting value or None = Debug only, forced type)
+        let mut forced_ty: Option<&str> = None;
+        let (arg, kind): (ArgForm, Option<Leaf>) = match leaf {
+            None => (if !raw && d.chance(50) { ArgForm::Inline(b.clone()) } else { ArgForm::Expr(b.clone()) }, None),
+            Some(Leaf::RefI32) if d.chance(50) => {
+                // Pointer: the documented forms `{field:p}` and `{:p}` with `*field` print the address stored in the field
+                forced_ty = Some("p");
+                cx.label("field_fmt_pointer");
+                (if !raw && d.chance(50) { ArgForm::Inline(b.clone()) } else { ArgForm::Expr(format!("*{b}")) }, Some(Leaf::RefI32))
+            }
+            Some(l) => {
+                let mut forms: Vec<(String, Leaf)> = vec![(b.clone(), l)];
+                match l {
+                    Leaf::I32 => {
+                        forms.push((format!("*{b}"), l));
+                        forms.push((format!("{b}.wrapping_add(1)"), l));
+                        forms.push((format!("(*{b} as i64) * 2"), Leaf::I64));
+                        if !is_enum {
+                            let member = if v.kind == VKind::Tuple { ti.to_string() } else { v.fields[ti].name.clone() };
+                            forms.push((format!("self.{member}"), l));
+                        }
+                    }
+                    Leaf::U8 | Leaf::I64 | Leaf::Usize => forms.push((format!("*{b}"), l)),
+                    Leaf::F64 => {
+                        forms.push((format!("*{b} * 2.0"), l));
+                        forms.push((format!("{b}.floor()"), l));
+                    }
+                    Leaf::Str | Leaf::StringT => {
+                        forms.push((format!("{b}.len()"), Leaf::Usize));
+                        forms.push((format!("{b}.to_uppercase()"), Leaf::StringT));
+                    }
+                    Leaf::Bool => forms.push((format!("!*{b}"), l)),
+                    _ => {}
+                }
+                let inline_ok = !raw;
+                let pick = d.pick(forms.len() + if inline_ok { 2 } else { 0 });
+                if pick >= forms.len() {
+                    (ArgForm::Inline(b.clone()), Some(l))
+                } else {
+                    let (e, k) = forms[pick].clone();
+                    (ArgForm::Expr(e), Some(k))
+                }
+            }
+        };
+        // spec
+        let ty: String = match (forced_ty, kind) {
+            (Some(t), _) => t.to_string(),
+            (None, None) => if d.chance(15) { "#?".to_string() } else { "?".to_string() },
+            (None, Some(k)) => k.fmt_tys()[d.pick(k.fmt_tys().len())].to_string(),
+        };
+        let mut spec = String::new();
+        if d.chance(40) && ty != "#?" {
+            match d.pick(4) {
+                0 => {}
+                1 => spec.push(*d.choose(&['<', '^', '>'])),
+                _ => {
+                    spec.push(*d.choose(&['*', '0', ' ', 'é', '#']));
+                    spec.push(*d.choose(&['<', '^', '>']));
+                }
+            }
+            if ty != "p" {
+                if d.chance(25) {
+                    spec.push(*d.choose(&['+', '-']));
+                }
+                if d.chance(25) {
+                    spec.push('#');
+                }
+                if d.chance(20) {
+                    spec.push('0');
+                }
+            }
+            if d.chance(60) {
+                spec.push_str(&d.range(0, 12).to_string());
+            }
+            if ty != "p" && d.chance(35) {
+                spec.push_str(&format!(".{}", d.range(0, 5)));
+            }
+            cx.label("field_fmt_with_flags");
+        }
+        spec.push_str(&ty);
+        let name_part: String = match arg {
+            ArgForm::Inline(n) => {
+                if v.fields[ti].ty.leaf().is_some_and(|l| l.is_copy()) && !inline_copy.contains(&n) {
+                    inline_copy.push(n.clone());
+                }
+                cx.label("field_fmt_names_field_in_literal");
+                n
+            }
+            ArgForm::Expr(e) => {
+                if e != b {
+                    cx.label("field_fmt_expression_argument");
+                }
+                if d.chance(25) {
+                    let alias = format!("k{}", named_args.len());
+                    named_args.push(format!("{alias} = {e}"));
+                    alias
+                } else {
+                    let k = pos_args.len();
+                    pos_args.push(e);
+                    if implicit_counter == k && d.chance(60) {
+                        implicit_counter += 1;
+                        String::new()
+                    } else {
+                        k.to_string()
+                    }
+                }
+            }
+        };
+        if ti != me {
+            cx.label("field_fmt_uses_other_field");
+        }
+        if spec.is_empty() {
+            let _ = write!(lit, "{{{name_part}}}");
+        } else {
+            let _ = write!(lit, "{{{name_part}:{spec}}}");
+        }
+    }
+    if lit.contains('\n') {
+        cx.label("field_fmt_multiline");
+    }
+    let mut args = pos_args;
+    args.extend(named_args);
+    Attr::Fmt { lit, args, inline_copy }
+}
+
+enum ArgForm {
+    Inline(String),
+    Expr(String),
+}
+
+fn gen_variant(d: &mut Dice, depth: usize, cx: &mut Cx, g: &Gen, name: String, kind: VKind, nf: usize, is_enum: bool) -> Variant {
+    let mut v = Variant { name, kind, fields: vec![] };
+    let mut used: Vec<&str> = vec![];
+    for _ in 0..nf {
+        let fname = if kind == VKind::Named {
+            let mut n = FIELD_NAMES[d.weighted(&[4, 3, 3, 2, 2, 1, 2, 2, 1])];
+            if used.contains(&n) {
+                n = FIELD_NAMES.iter().copied().find(|x| !used.contains(x)).unwrap_or("zz");
+            }
+            used.push(n);
+            n.to_string()
+        } else {
+            String::new()
+        };
+        let ty = gen_ty(d, depth, cx, g);
+        v.fields.push(FieldDef { name: fname, ty, attr: Attr::None });
+    }
+    v
+}
+
+/// makes sure every declared generic parameter is used by a field of `v`
+fn use_generics(d: &mut Dice, g: &Gen, v: &mut Variant) {
+    let uses = |v: &Variant, pred: &dyn Fn(&Ty) -> bool| v.fields.iter().any(|f| pred(&f.ty));
+    let mut extra: Vec<Ty> = vec![];
+    if g.lt && !uses(v, &|t| matches!(t, Ty::RefParam(_) | Ty::RefStr)) {
+        extra.push(if !g.tps.is_empty() && d.chance(50) { Ty::RefParam(0) } else { Ty::RefStr });
+    }
+    for k in 0..g.tps.len() {
+        let used = uses(v, &|t| matches!(t, Ty::Param(x) | Ty::VecParam(x) | Ty::RefParam(x) | Ty::Phantom(x) if *x == k))
+            || extra.iter().any(|t| matches!(t, Ty::RefParam(x) if *x == k));
+        if !used {
+            extra.push(match d.weighted(&[5, 2, 2]) {
+                0 => Ty::Param(k),
+                1 => Ty::VecParam(k),
+                _ => Ty::Phantom(k),
+            });
+        }
+    }
+    if g.cn.is_some() && !uses(v, &|t| matches!(t, Ty::ArrN)) && d.chance(70) {
+        extra.push(Ty::ArrN);
+    }
+    for (j, ty) in extra.into_iter().enumerate() {
+        let name = if v.kind == VKind::Named { format!("g{j}") } else { String::new() };
+        v.fields.push(FieldDef { name, ty, attr: Attr::None });
+    }
+}
+
+fn gen_attrs(d: &mut Dice, v: &mut Variant, is_enum: bool, cx: &mut Cx) {
+    if v.fields.is_empty() {
+        return;
+    }
+    let all_skipped = d.chance(6);
+    for i in 0..v.fields.len() {
+        let choice = if all_skipped { 1 } else { d.weighted(&[55, 25, 20]) };
+        match choice {
+            0 => {}
+            1 => {
+                let w = if d.chance(40) { "ignore" } else { "skip" };
+                v.fields[i].attr = Attr::Skip(w);
+                cx.label("skipped_field");
+                if w == "ignore" {
+                    cx.label("skip_spelled_ignore");
+                }
+            }
+            _ => {
+                let a = gen_field_fmt(d, v, i, is_enum, cx);
+                v.fields[i].attr = a;
+                cx.label("field_format");
+            }
+        }
+    }
+    let n = v.fields.len();
+    let nskip = v.fields.iter().filter(|f| matches!(f.attr, Attr::Skip(_))).count();
+    if nskip == n {
+        cx.label("all_fields_skipped");
+    }
+    if nskip > 0 && v.kind == VKind::Tuple {
+        cx.label("skipped_field_in_tuple");
+    }
+    if nskip > 0 && matches!(v.fields[n - 1].attr, Attr::None | Attr::Fmt { .. }) {
+        cx.label("skipped_field_before_shown_field");
+    }
+}
+
+fn gen_type(d: &mut Dice, depth: usize, cx: &mut Cx) -> usize {
+    // shape: 0 unit struct, 1 `S()`, 2 `S{}`, 3 tuple struct, 4 named struct, 5 enum
+    let shape = if depth == 0 { d.weighted(&[3, 2, 2, 31, 30, 32]) } else { 3 + d.weighted(&[4, 4, 3]) };
+    let with_attrs = d.chance(62);
+    let gen = if shape >= 3 && d.chance(30) { gen_generics(d) } else { Gen::default() };
+    let mut base = TYPE_NAMES[d.weighted(&[4, 3, 2, 2, 2, 2, 2, 1, 1, 1])].to_string();
+    let mut variants = vec![];
+    let is_enum = shape == 5;
+    if is_enum {
+        let nv = d.range(1, 4);
+        let mut used: Vec<&str> = vec![];
+        for _ in 0..nv {
+            let mut vn = VARIANT_NAMES[d.weighted(&[3, 2, 2, 2, 2, 1, 1, 1, 1])];
+            if used.contains(&vn) {
+                vn = VARIANT_NAMES.iter().copied().find(|x| !used.contains(x)).unwrap_or("Q");
+            }
+            used.push(vn);
+            let (kind, nf) = match d.weighted(&[3, 5, 5, 1, 1]) {
+                0 => (VKind::Unit, 0),
+                1 => (VKind::Tuple, d.range(1, 4)),
+                2 => (VKind::Named, d.range(1, 4)),
+                3 => (VKind::Tuple, 0),
+                _ => (VKind::Named, 0),
+            };
+            let v = gen_variant(d, depth, cx, &gen, vn.to_string(), kind, nf, true);
+            variants.push(v);
+        }
+        if !gen.is_empty() {
+            // the parameters are used by one variant with fields (added if there is none)
+            let vi = match variants.iter().position(|v| !v.fields.is_empty()) {
+                Some(i) => i,
+                None => {
+                    variants.push(Variant { name: "Gv".into(), kind: if d.chance(50) { VKind::Tuple } else { VKind::Named }, fields: vec![] });
+                    variants.len() - 1
+                }
+            };
+            use_generics(d, &gen, &mut variants[vi]);
+        }
+    } else {
+        let (kind, nf) = match shape {
+            0 => (VKind::Unit, 0),
+            1 => (VKind::Tuple, 0),
+            2 => (VKind::Named, 0),
+            3 => (VKind::Tuple, d.range(1, 4)),
+            _ => (VKind::Named, d.range(1, 4)),
+        };
+        let mut v = gen_variant(d, depth, cx, &gen, String::new(), kind, nf, false);
+        use_generics(d, &gen, &mut v);
+        variants.push(v);
+    }
+    if with_attrs {
+        for v in variants.iter_mut() {
+            gen_attrs(d, v, is_enum, cx);
+        }
+    }
+    // labels
+    for v in &variants {
+        match (v.kind, v.fields.len()) {
+            (VKind::Unit, _) => cx.label(if is_enum { "unit_variant" } else { "unit_struct" }),
+            (VKind::Tuple, 0) => cx.label("empty_parens"),
+            (VKind::Named, 0) => cx.label("empty_braces"),
+            (VKind::Tuple, _) => cx.label("positional_fields"),
+            (VKind::Named, _) => cx.label("named_fields"),
+        }
+        if v.name.starts_with("r#") {
+            cx.label("raw_variant_name");
+            cx.label("raw_identifier");
+        }
+        if v.fields.iter().any(|f| f.name.starts_with("r#")) {
+            cx.label("raw_field_name");
+            cx.label("raw_identifier");
+        }
+    }
+    if !gen.is_empty() {
+        cx.label("generic");
+        if gen.lt {
+            cx.label("generic_lifetime");
+        }
+        if !gen.tps.is_empty() {
+            cx.label("generic_type_param");
+        }
+        if gen.cn.is_some() {
+            cx.label("generic_const_param");
+        }
+    }
+    let idx = cx.types.len();
+    if cx.used_names.contains(&base) {
+        base = format!("{base}{idx}");
+    }
+    cx.used_names.push(base.clone());
+    if base.starts_with("r#") {
+        cx.label("raw_type_name");
+        cx.label("raw_identifier");
+    }
+    if !is_enum {
+        variants[0].name = base.clone();
+    }
+    cx.types.push(TypeDef { name: base, is_enum, gen, variants });
+    idx
+}
+
+fn render_case(types: &[TypeDef], top: usize, vals: &[String]) -> (String, String) {
+    let t = &types[top];
+    let top_ty = format!("{}{}", t.name, t.gen.inst());
+    let vals_fn = format!("    pub fn vals() -> Vec<{top_ty}> {{\n        vec![\n{}        ]\n    }}\n", vals.iter().map(|v| format!("            {v},\n")).collect::<String>());
+    let module = |name: &str, flavor: Flavor| -> String {
+        let mut s = format!("pub mod {name} {{\n    #[allow(unused_imports)] use crate::*;\n");
+        for t in types {
+            s.push_str(&t.render_def(types, flavor));
+        }
+        s.push_str(&vals_fn);
+        s.push_str("}\n");
+        s
+    };
+    let dm = module("dm", Flavor::Dm);
+    let sd = module("sd", Flavor::Sd);
+    let md = module("md", Flavor::Md);
+    let run = "pub fn run(o: &mut Out) {\n    let (a, b, c) = (dm::vals(), sd::vals(), md::vals());\n    let mut cmp = __Cmp::new();\n    for i in 0..a.len() {\n        cmp.value(i, &a[i], &b[i], &c[i]);\n    }\n    cmp.finish(o);\n}\n";
+    (format!("{dm}{sd}{md}{run}"), format!("{sd}{md}"))
+}
+
+fn build(d: &mut Dice) -> GenCase {
+    let mut cx = Cx { types: vec![], used_names: vec![], labels: vec![] };
+    let top = gen_type(d, 0, &mut cx);
+    let t = cx.types[top].clone();
+    let mut vals = vec![];
+    if t.is_enum {
+        for vi in 0..t.variants.len() {
+            vals.push(t.value(d, &cx.types, vi));
+        }
+        if let Some(vi) = t.variants.iter().position(|v| !v.fields.is_empty()) {
+            vals.push(t.value(d, &cx.types, vi));
+        }
+    } else {
+        vals.push(t.value(d, &cx.types, 0));
+        if !t.variants[0].fields.is_empty() {
+            vals.push(t.value(d, &cx.types, 0));
+        }
+    }
+    let (body, control) = render_case(&cx.types, top, &vals);
+    let mut labels = cx.labels.clone();
+    labels.push(format!("kind={}", if t.is_enum { "enum" } else { "struct" }));
+    labels.push(format!("types_in_case={}", cx.types.len()));
+    let any_attr = cx.types.iter().any(|t| t.has_attrs());
+    labels.push(if any_attr { "with_debug_attributes".into() } else { "attribute_less".into() });
+    let has_fields = cx.types.iter().any(|t| t.variants.iter().any(|v| !v.fields.is_empty()));
+    let mut c = GenCase::new(body);
+    c.control = Some(control);
+    // every case is evaluated under the whole grid (flags, nestings); the trivial ones are the field-less,
+    // attribute-less, plainly named types for which all configurations print just the name
+    c.nontrivial = has_fields || labels.iter().any(|l| l == "raw_identifier");
+    c.meta = json!({"types": cx.types.len(), "values": vals.len()});
+    c.labels = labels;
     c
 }
 
+fn fixed_case(types: Vec<TypeDef>, vals: Vec<&str>, label: &str) -> GenCase {
+    let top = types.len() - 1;
+    let vals: Vec<String> = vals.into_iter().map(String::from).collect();
+    let (body, control) = render_case(&types, top, &vals);
+    let mut c = GenCase::new(body);
+    c.control = Some(control);
+    c.labels = vec!["fixed".into(), label.into()];
+    c
+}
+
+/// deterministic regression / corner cases named by the property and the design
+fn fixed() -> Vec<GenCase> {
+    let f = |name: &str, ty: Ty, attr: Attr| FieldDef { name: name.into(), ty, attr };
+    let st = |name: &str, kind: VKind, fields: Vec<FieldDef>| TypeDef {
+        name: name.into(),
+        is_enum: false,
+        gen: Gen::default(),
+        variants: vec![Variant { name: name.into(), kind, fields }],
+    };
+    let i = || Ty::Leaf(Leaf::I32);
+    vec![
+        // DESIGN: format!("{:#x?}", S(255, 16))
+        fixed_case(vec![st("S", VKind::Tuple, vec![f("", i(), Attr::None), f("", i(), Attr::None)])], vec!["S(255, 16)"], "fixed_tuple_two_ints"),
+        fixed_case(vec![st("S", VKind::Named, vec![f("a", i(), Attr::None), f("b", i(), Attr::None)])], vec!["S { a: 255, b: 16 }"], "fixed_named_two_ints"),
+        fixed_case(vec![st("r#type", VKind::Tuple, vec![f("", i(), Attr::None)])], vec!["r#type(1)"], "fixed_raw_tuple"),
+        fixed_case(vec![st("r#fn", VKind::Unit, vec![])], vec!["r#fn"], "fixed_raw_unit"),
+        fixed_case(vec![st("S", VKind::Tuple, vec![f("", i(), Attr::Skip("skip")), f("", i(), Attr::Skip("ignore"))])], vec!["S(1, 2)"], "fixed_all_skipped_tuple"),
+        fixed_case(vec![st("S", VKind::Named, vec![f("a", i(), Attr::Skip("skip"))])], vec!["S { a: 1 }"], "fixed_all_skipped_named"),
+        fixed_case(
+            vec![st("S", VKind::Tuple, vec![f("", Ty::Leaf(Leaf::Str), Attr::Fmt { lit: "{}\n".into(), args: vec!["_0".into()], inline_copy: vec![] }), f("", i(), Attr::Skip("skip"))])],
+            vec!["S(\"a\\nb\", 2)"],
+            "fixed_multiline_field_format",
+        ),
+    ]
+}
+
+fn classify(_c: &GenCase, _r: &CaseResult, f: &Finding) -> Option<String> {
+    let rest = f.summary.strip_prefix("run-time oracle failed: [")?;
+    let (sig, _) = rest.split_once(']')?;
+    match sig {
+        // the in-program model decided; cross-check the part of the model that is textual
+        SIG_RAW => (f.observed.replace("r#", "") == f.expected && f.observed != f.expected).then(|| SIG_RAW.to_string()),
+        SIG_FLAGS => (!f.observed.contains("r#")).then(|| SIG_FLAGS.to_string()),
+        SIG_BOTH => (f.observed.contains("r#")).then(|| SIG_BOTH.to_string()),
+        _ => None,
+    }
+}
+
 pub fn prop() -> DiceProp {
+    let ns = spec_grid().len();
     DiceProp {
         crate_name: "gen_c06",
-        prelude: String::new(),
+        prelude: prelude(),
         crate_attrs: String::new(),
         nightly: false,
         check_only: false,
-        ndice: 64,
-        quick: (10, 1),
-        thorough: (10, 1),
+        ndice: 420,
+        quick: (700, 1),
+        thorough: (3000, 8),
         build,
-        fixed: no_fixed,
-        classify: no_classify,
-        rule: "stub".into(),
-        assumptions: vec![],
-        floors: vec![],
+        fixed,
+        classify,
+        rule: format!(
+            "families of 1..n type definitions (unit / `S()` / `S{{}}` / 1..4+ positional or named fields / enums with mixed variants; lifetime, type and const parameters in both orders with bounds, where-clauses and defaults; raw-identifier type, variant and field names; fields of primitive, string, container, reference types and of other generated derive_more::Debug types to depth 3; every field independently plain / #[debug(skip)] / #[debug(ignore)] / #[debug(\"lit\", args)]) rendered as three twins with identical names: derive_more::Debug, the reference (std #[derive(Debug)] when attribute-less, otherwise std builders with finish_non_exhaustive() and &format_args!(LIT, ARGS)), and a hand-written twin carrying the recorded defect models; 2+ values per case (every variant of an enum) x {} outer specs (all-pairs over fill/align x sign x # x 0 x width x precision x ?/x?/X?, full product of #/type/0/width/precision, 40 fixed random) x {} nestings (bare, Some, vec!, tuple, BTreeMap, std-derived named/tuple wrappers, derive_more-derived named/tuple/skipping wrappers) compared text for text; non-trivial = the family has at least one field or a raw identifier (flags, nesting and skip can change the text); distinct by program text",
+            ns,
+            NESTS.len()
+        ),
+        assumptions: vec![
+            "std's #[derive(Debug)] and std's DebugStruct/DebugTuple builders (incl. finish_non_exhaustive) of the installed stable toolchain are the reference".into(),
+            "a hand-written impl over std's builders is what std's derive would produce for the non-skipped fields (self-checked in every case: the hand-written twin with all defect models off must equal the reference twin)".into(),
+        ],
+        floors: vec![
+            ("kind=enum".into(), 0.2),
+            ("positional_fields".into(), 0.3),
+            ("named_fields".into(), 0.3),
+            ("skipped_field".into(), 0.25),
+            ("all_fields_skipped".into(), 0.03),
+            ("field_format".into(), 0.2),
+            ("raw_identifier".into(), 0.15),
+            ("raw_type_name".into(), 0.05),
+            ("raw_variant_name".into(), 0.04),
+            ("generic".into(), 0.15),
+            ("nesting_depth>=1".into(), 0.25),
+            ("nesting_depth>=2".into(), 0.04),
+            ("attribute_less".into(), 0.2),
+            ("unit_struct".into(), 0.01),
+            ("empty_parens".into(), 0.02),
+            ("empty_braces".into(), 0.02),
+        ],
         shards: 0,
     }
 }
